@@ -61,6 +61,14 @@ class RunAnalysis:
         calls_only = all(op.split(" ")[0] == "call" for prog in self.programs for op in prog if op)
         hot = self.fns[0]
         hs = self.spec[hot]
+        # impure programs (C09 variant): two calls of one function with the same argument index but different scripted outcomes
+        scripts = {}
+        for prog in self.programs:
+            for op in prog:
+                f_ = op.split(" ")
+                if f_[0] == "call":
+                    scripts.setdefault((f_[1], f_[2]), set()).add((f_[3], f_[4]))
+        impure = any(len(v) > 1 for v in scripts.values())
         started = {}         # thread -> position of the S event of its current op
         hot_calls = []       # (start position, end position, thread, key, execs, returned value) of calls on the hot cache
         invs = []            # (start, end, "clear" | "cond", mask) of invalidations that address the hot cache
@@ -77,6 +85,9 @@ class RunAnalysis:
             elif kind == "A":
                 site, ln, mode, own = body.split(":")
                 site, ln = int(site), int(ln)
+                if site == 9000:
+                    ev("body-preemption-point")      # the harness's own yield inside a function body: not a lock
+                    continue
                 lname, is_held, _ = self.sites.get(site, ("?", False, ""))
                 op = cur_op.get(t, ["?"])
                 c = 0
@@ -126,7 +137,7 @@ class RunAnalysis:
                         ev("concurrent-call")
                         if fi == hot:
                             hot_calls.append((started.get(t, pos), pos, t, mm.group(1), int(mm.group(3)), mm.group(2)))
-                        if mm.group(2) != mm.group(4):
+                        if mm.group(2) != mm.group(4) and not impure:
                             fail("C18", f"call {' '.join(op)} on thread {t} returned {mm.group(2)[:40]}, the function's value for these arguments is {mm.group(4)[:40]}", replay)
                     elif "PANIC" in body:
                         fail("C16", f"call {' '.join(op)} panicked under schedule [{sched}]: {body}", replay)
@@ -206,6 +217,24 @@ class RunAnalysis:
                     if t != first_store_end[key][1]:
                         fail("C14", f"shared cache {hs['name']}: the value stored by thread {first_store_end[key][1]} for key {key[:24]} was not served to thread {t}, "
                                     f"whose call started after the storing call had returned (schedule [{sched}])", replay)
+        plain_result = (hs["limit"] is None and hs["maxmem"] is None and hs["ttl"] is None and not hs["cache_if"] and not hs["inv_on"]
+                        and hs["is_result"])
+        if calls_only and plain_result and not hs["thread"]:
+            # C09 under concurrency (impure body: some threads' calls fail, others succeed for the same arguments): an Err is
+            # never served from the cache; once a call that returned Ok (and therefore stored it) has RETURNED, every call
+            # started later is served without running the body - a failing call that finishes late must not disturb the entry
+            ev("c09-concurrent-run")
+            first_ok_end = {}
+            for (st, en, t, key, ex, ret) in hot_calls:
+                if ex == 1 and ret.startswith(macro_stream.HEX_OK) and (key not in first_ok_end or en < first_ok_end[key][0]):
+                    first_ok_end[key] = (en, t)
+            for (st, en, t, key, ex, ret) in hot_calls:
+                if ex == 0 and ret.startswith(macro_stream.HEX_ERR):
+                    fail("C09", f"Result function {hs['name']}: the call for key {key[:24]} on thread {t} was served an Err from the cache (schedule [{sched}])", replay)
+                if key in first_ok_end and st > first_ok_end[key][0] and ex != 0:
+                    ev("c09-late-execution")
+                    fail("C09", f"Result function {hs['name']}: a call for key {key[:24]} on thread {first_ok_end[key][1]} returned Ok, stored it and RETURNED; a call for the same "
+                                f"arguments started afterwards on thread {t} ran the body again - the stored Ok was lost (schedule [{sched}])", replay)
         # quiescent state
         if qline:
             dumps_s, stats_s, _ = qline[2:].split("|")
@@ -337,6 +366,9 @@ def build_cdata(spec, sites, fns, ktable, iline, vline, qline):
         elif kind == "A":
             site, ln, mode, own = body.split(":")
             site, ln = int(site), int(ln)
+            if site == 9000:
+                last_pos[t] = prev_pos if prev_pos is not None else pos
+                continue
             lname, is_held, _ = sites.get(site, ("?", False, ""))
             if lname == "Rk" and t in cur:
                 cur[t]["rk_pos"] = pos
@@ -390,7 +422,7 @@ def build_cdata(spec, sites, fns, ktable, iline, vline, qline):
                 allkeys.add(key)
                 progs[t].append(f"get {key}")
                 results[t].append(ret if ex == 0 else "-")
-                if ex == 1:
+                if ex == 1 and not (hs["is_result"] and not hs["cache_if"] and ret.startswith(macro_stream.HEX_ERR)):
                     progs[t].append(f"{'insm' if hs['use_mem'] else 'ins'} {key} {ret} {wsz if hs['use_mem'] else 0}")
             elif op[0] in ("tag", "event", "dep", "cache") and c["targets_hot"]:
                 progs[t].append("clear")
@@ -452,6 +484,7 @@ def run_sched_stream(prop, stream, tier, seed, workdir, scale=1):
         x = v = None
         ktable = {}
         iline = None
+        age_unsafe = False
         for line in out.splitlines():
             if line.startswith("K|"):
                 ktable = {int(kv.split("=")[0]): kv.split("=")[1] for kv in line.split("|")[2].split(",")}
@@ -468,6 +501,10 @@ def run_sched_stream(prop, stream, tier, seed, workdir, scale=1):
                     acc["by_flavour_policy"][k] = acc["by_flavour_policy"].get(k, 0) + 1
             elif line.startswith("X|"):
                 x, v = line, None
+                age_unsafe = False
+            elif line.startswith("#AGE-UNSAFE"):
+                age_unsafe = True
+                ev("runs-with-unsafe-clock-not-replayed")
             elif line.startswith("V|"):
                 v = line
                 if x and "result=ok" not in x and cur:
@@ -481,7 +518,7 @@ def run_sched_stream(prop, stream, tier, seed, workdir, scale=1):
                     {"kind": "MON", "id": pid, "episode": 0, "step": 0, "text": f"MON {pid} :: {msg}", "raw": rp}), tlines, ev, iline=iline)
                 runs += 1
                 acc["steps"] += 1
-                if iline is not None:
+                if iline is not None and not age_unsafe:
                     try:
                         dl = build_cdata(spec, sites, cur.fns, ktable, iline, v, line)
                     except Exception as exn:
